@@ -271,6 +271,16 @@ crate::verif_common::harness! {
     }
 }
 
+// cross-module constructor (see common.rs FromParts): an EMPTY key set for harnesses in other
+// modules that only hand the key set to stubbed callees (a key file without keys is rejected by
+// KeySetProvider::load, and loading a real key costs CBMC a 64-iteration loop per key).
+impl crate::verif_common::FromParts<()> for KeySet {
+    fn from_parts(_: ()) -> Self {
+        KeySet { keys: Vec::new(), id_offset: 0, primary: 0 }
+    }
+}
+
+
 #[cfg(all(kani, test))]
 mod replay {
     use super::*;
